@@ -497,6 +497,53 @@ def _provider_histories_custom(depth):
     return acc
 
 
+def _fixed_zone_histories(depth):
+    """DateTimeZone.for_offset / utc / tzdb: lazily built fixed-zone table and singletons; any order of requests gives
+    zones with exactly the requested offset and the documented id, equal to a freshly computed answer"""
+    acc = Acc()
+    import pyoda_time._date_time_zone as dtz
+    secs = [0, 1800, -1800, 3600, -43200, -43200 - 1800, 54000, 54000 + 1800, 64800, -64800, 1, 3599, 45 * 60]
+    probe = mk_instant(0)
+
+    def reset():
+        try:
+            setattr(DateTimeZone, "_DateTimeZone__fixed_zone_cache", None)
+            setattr(dtz._DateTimeZoneMeta, "_DateTimeZoneMeta__utc", None)
+            return True
+        except Exception:  # noqa: BLE001
+            return False
+    can_reset = reset()
+    if not can_reset:
+        acc.degrade("fixed-zone table not resettable: histories run on the already built table")
+    n = 0
+    for d in range(1, depth + 1):
+        for hist in itertools.product(secs, repeat=d):
+            if can_reset:
+                reset()
+            n += 1
+            acc.count(evaluations=1)
+            for i, sec in enumerate(hist):
+                acc.count(transitions=1)
+                try:
+                    off = Offset.from_seconds(sec)
+                    z = DateTimeZone.for_offset(off)
+                    got = (z.get_utc_offset(probe).seconds, z.id, z.min_offset.seconds, z.max_offset.seconds, z == DateTimeZone.for_offset(off),
+                           (z == DateTimeZone.utc) == (sec == 0))
+                    exp_id = "UTC" if sec == 0 else "UTC" + str(off)
+                    exp = (sec, exp_id, sec, sec, True, True)
+                    if got != exp:
+                        acc.violation("C13/fixed-zones/history-dependent", "after for_offset requests %r, for_offset(%d s) gives %r, expected %r" % (hist[:i], sec, got, exp),
+                                      {"kind": "fixed-zones", "history": list(hist[:i + 1])})
+                        break
+                except Exception as e:  # noqa: BLE001
+                    acc.lib_exception("C13/fixed-zones", e, {"history": list(hist[:i + 1])})
+                    break
+    acc.count(states=n, nontrivial=n)
+    acc.outcome("fixed-zones")
+    acc.sample({"for_offset_seconds_alphabet": secs, "depth": depth})
+    return acc
+
+
 def _calendar_routes():
     routes = []
     for cid in CalendarSystem.ids:
@@ -964,6 +1011,7 @@ def run(ctx):
     mark("hist_lru_and_format_info")
     ctx.merge_part("hist_provider", _provider_histories(3 if tier == "quick" else 4))
     ctx.merge_part("hist_provider_custom_source", _provider_histories_custom(3 if tier == "quick" else 4))
+    ctx.merge_part("hist_fixed_zones", _fixed_zone_histories(2 if tier == "quick" else 3))
     acc = Acc()
     _calendar_histories(acc)
     ctx.merge_part("hist_calendars", acc)
